@@ -4869,6 +4869,8 @@ bool ts_query_cursor_next_capture(
     }
 
     if (capture_list_pool_is_empty(&self->capture_list_pool) && found_unfinished_state) {
+      // An in-progress match is dropped to make room: that is exceeding the limit.
+      self->did_exceed_match_limit = true;
       LOG(
         "  abandon state. index:%u, pattern:%u, offset:%u.\n",
         first_unfinished_state_index,
